@@ -145,7 +145,12 @@ class Rerr:
         if op in ("neg", "abs"):
             if targs[0].uid in self.intvalued:
                 self.intvalued.add(t.uid)
-            return -a[0] if op == "neg" else zabs(a[0])
+            ex = -a[0] if op == "neg" else zabs(a[0])
+            if dt in INTS:
+                bits, signed = INTS[dt]
+                lo, hi = (-(1 << (bits - 1)), (1 << (bits - 1)) - 1) if signed else (0, (1 << bits) - 1)
+                self.oblig.append(("intwrap", z3.And(ex >= lo, ex <= hi), t))
+            return ex
         if op == "not" and dt == BOOL:
             return z3.Not(a[0])
         if op in ("round", "floor", "ceil", "trunc"):
